@@ -100,7 +100,15 @@ def run_check(ctx, mod, ev):
     ok, log = C.translate()
     cov["translator"] = log.strip().split("\n")
     if not ok:
-        broken.append({"kind": "translator-refused", "detail": log.strip()[-2000:]})
+        # a generator that refuses the changed source concerns the properties whose theorems (or whose part of the
+        # model driver) are built on that generated file - not every property
+        refused = [ln.split(":")[1].strip() for ln in log.split("\n") if "TRANSLATOR-REFUSED" in ln and ln.count(":") >= 2]
+        mine = generated_used_by(list(mod.PROPS_MODULES) + list(getattr(mod, "EXTRA_TARGETS", [])) + list(getattr(mod, "DRIVER_MODULES", [])))
+        hit = [r for r in refused if (not r.endswith(".lean")) or r[:-5] in mine]
+        if hit:
+            broken.append({"kind": "translator-refused", "detail": log.strip()[-2000:], "files": hit})
+        else:
+            ctx.note("translator refused " + ", ".join(refused) + " - not used by this property's modules")
 
     # 2 build ---------------------------------------------------------------------
     props_modules = list(mod.PROPS_MODULES)
@@ -310,6 +318,27 @@ class debug_logging:
         lg.root.setLevel(self.saved[2])
         lg.disable(self.saved[1])
         return False
+
+
+def generated_used_by(modules):
+    """names (without .lean) of the lean/AsyncFix/Generated files in the import closure of the given Lean modules"""
+    import re
+
+    seen, todo, gen = set(), [m for m in modules if m != "driver"], set()
+    while todo:
+        m = todo.pop()
+        if m in seen:
+            continue
+        seen.add(m)
+        path = os.path.join(C.LEAN, m.replace(".", "/") + ".lean")
+        if not os.path.exists(path):
+            continue
+        for imp in re.findall(r"^import\s+([A-Za-z0-9_.]+)", open(path).read(), re.M):
+            if imp.startswith("AsyncFix.Generated."):
+                gen.add(imp.split(".")[-1])
+            if imp.startswith("AsyncFix.") or imp.startswith("Driver"):
+                todo.append(imp)
+    return gen
 
 
 def impl_crash(e):
